@@ -385,6 +385,31 @@ func c40RaceLog(off int64) (string, int64) {
 // c40ClassifyRace looks at the code that performed each access (first frame that is not Go runtime / sync code).
 // "harness": an access made by harness code itself -> harness bug, not a finding.
 func c40ClassifyRace(report string) string {
+	var out []string
+	for _, rep := range strings.Split(report, "WARNING: DATA RACE") {
+		if c := c40ClassifyOneRace(rep); c != "" {
+			out = append(out, c)
+		}
+	}
+	return strings.Join(out, " ; ")
+}
+
+// c40AllHarness: every report of the batch has an accessing frame in harness code (nothing is attributable to
+// mediamtx alone). A harness frame as accessor is typically the construction of an object that is then handed to
+// mediamtx through its API, or a harness bug; both cases are reported as inconclusive, never as a violation.
+func c40AllHarness(classes string) bool {
+	if classes == "" {
+		return false
+	}
+	for _, c := range strings.Split(classes, " ; ") {
+		if !strings.Contains(c, "harness") {
+			return false
+		}
+	}
+	return true
+}
+
+func c40ClassifyOneRace(report string) string {
 	goroot := runtime.GOROOT()
 	var sides []string
 	lines := strings.Split(report, "\n")
@@ -469,8 +494,8 @@ func TestVerifC40Programs(t *testing.T) {
 		if p != nil {
 			prog = c40Report(*p, out)
 		}
-		if strings.Contains(class, "harness") {
-			fmt.Fprintf(os.Stderr, "VERIF-INCONCLUSIVE: the race detector reported an access made by HARNESS code (class %s): harness bug\n", class)
+		if c40AllHarness(class) {
+			fmt.Fprintf(os.Stderr, "VERIF-INCONCLUSIVE: every reported race has an access made by HARNESS code (%s): harness bug or hand-over of a harness-built object\n", class)
 		}
 		fail("the race detector reported %d data race(s) while this program ran; accesses by: %s\n%s\n%s", delta, class, prog, where)
 	}
